@@ -55,13 +55,13 @@ def jobs(tier, seed):
         if j.name.startswith(('x86-rt-target', 'x86-rt-value')): j.small = True
     # scanners of every back end, debug-assertion MIR included
     NOTAB = [b for b in range(256) if b != 9]
-    scanners = list(c12.SCANNERS) + [('swar-dbg', 'swar::match_uri_vectored', 'uri', 'swar-dbg'), ('swar-dbg', 'swar::match_header_value_vectored', 'value', 'swar-dbg'),
+    scanners = list(c12.discover_scanners()) + [('swar-dbg', 'swar::match_uri_vectored', 'uri', 'swar-dbg'), ('swar-dbg', 'swar::match_header_value_vectored', 'value', 'swar-dbg'),
                                      ('swar-dbg', 'swar::match_header_name_vectored', 'name', 'swar-dbg'),
                                      ('x86-rt-dbg', 'sse42::match_uri_vectored', 'uri', 'sse42-dbg'), ('x86-rt-dbg', 'sse42::match_header_value_vectored', 'value', 'sse42-dbg'),
                                      ('x86-rt-dbg', 'avx2::match_uri_vectored', 'uri', 'avx2-dbg'), ('x86-rt-dbg', 'avx2::match_header_value_vectored', 'value', 'avx2-dbg')]
     top = T(tier, 40, 100)
     for variant, fn, cls, tag in scanners:
-        tp = min(top, T(tier, 20, 36)) if (tag == 'neon' and cls == 'name') else top
+        tp = min(top, T(tier, 20, 36)) if (variant == 'a64-neon' and cls == 'name' and 'swar' not in fn) else top
         for L in sorted(set(list(range(0, tp + 1, T(tier, 7, 3))) + [7, 8, 9, 15, 16, 17, 31, 32, 33, tp])):
             if L > tp: continue
             fixed = None
